@@ -109,8 +109,12 @@ fn main() {
                 run_property(prop, &opt)
             } else if args[1] == "digest" {
                 // one run, alone in a fresh process: what the engine compares its in-batch result with
-                let Some(r) = file.as_deref().and_then(|f| f.parse::<u64>().ok()) else { usage() };
-                digest_of_run(prop, &opt, r)
+                // argument: a run index, or a replay file (its scenario is executed as it stands)
+                let Some(f) = file.as_deref() else { usage() };
+                match f.parse::<u64>() {
+                    Ok(r) => digest_of_run(prop, &opt, r),
+                    Err(_) => digest_of_file(prop, f),
+                }
             } else {
                 let Some(f) = file else { usage() };
                 replay(prop, &f, &opt.verif_dir)
